@@ -158,10 +158,10 @@ class Check:
                                text=True, timeout=timeout)
             if p.returncode == 0:
                 errs = [ln for ln in first.splitlines() if ln.startswith("error")][:3]
-                log("note: the harness was built WITHOUT the optional flavour 'iterable_populations' "
-                    "(Best / Worst / Lexicase on a VecDeque did not compile): " + " | ".join(errs))
-                self.assumptions.append("optional flavour 'iterable_populations' did not compile against this "
-                                        "tree and was left out: " + " | ".join(errs))
+                log("note: the harness was built WITHOUT the optional flavours "
+                    "(selectors on a VecDeque, erased selector with a custom error type, zero-length array conversions): " + " | ".join(errs))
+                self.assumptions.append("the optional flavours (selectors on a VecDeque, erased selector with a custom error type, "
+                                        "zero-length array conversions) did not compile against this tree and were left out: " + " | ".join(errs))
         self.cov["conformance"]["harness_build_s"] = round(time.time() - t, 1)
         if p.returncode != 0:
             tail = "\n".join(p.stdout.splitlines()[-60:])
